@@ -444,7 +444,10 @@ package corerad
 //@   requires P1: advOK(a) && ifiOK(a.cfg) && m != nil && m.val > 0
 //@   requires P2: isRA(m) ==> optsOK(as(m, "*ndp.RouterAdvertisement").Options)
 //@   assigns new heap(ndp.RouterAdvertisement), new mem(ndp.Option), new heap(ndp.PrefixInformation), new heap(ndp.RouteInformation), new heap(ndp.RecursiveDNSServer), new heap(ndp.DNSSearchList), new heap(ndp.MTU), new heap(ndp.LinkLayerAddress), new mem(netip.Addr), new mem(netip.Prefix), new mem(system.IP), new mem(system.Route), new mem(config.Misconfiguration), new heap(corerad.problems), new mem(corerad.problem), new mem(*ndp.DNSSearchList), new mem(*ndp.PrefixInformation), new mem(*ndp.RecursiveDNSServer), new mem(*ndp.RouteInformation), ghost.clockRead, ghost.now, ghost.lastAddrs, ghost.lastRoutes, ghost.fwdVal, ghost.fwdName, ghost.fwdFresh, ghost.advReceived, ghost.invalid, ghost.inconsistencies, ghost.hookCalls
-//@   at call verifyRAs(va, vb) (vps): ghost.nproblems = len(vps)
+//@   ghost local built Bool
+//@   ghost local builtRA Int
+//@   at call buildRA(ba, bifi) (bra, berr): ghost.built = true ; ghost.builtRA = bra
+//@   at call verifyRAs(va, vb) (vps): assert V1 [C04]: ghost.built && va == ghost.builtRA ; ghost.nproblems = len(vps)
 //@   loop 1 invariant L0 [C12]: 0 <= rangeindex + 1 && rangeindex + 1 <= len(problems) && ghost.inconsistencies == old(ghost.inconsistencies) + rangeindex + 1 && ghost.hookCalls == old(ghost.hookCalls) && ghost.invalid == old(ghost.invalid) && ghost.advReceived == old(ghost.advReceived) + 1 && len(problems) == ghost.nproblems && advOK(a)
 //@   ensures H1 [C07]: isRS(m) ==> result1 == nil && result0 == ite(addrIsUnspecified(host), allNodesAddr, host)
 //@   ensures H2 [C07,C09]: !isRS(m) ==> !addrIsValid(result0)
@@ -453,7 +456,7 @@ package corerad
 //@   ensures H5 [C09,C12]: !isRA(m) ==> ghost.inconsistencies == old(ghost.inconsistencies) && ghost.hookCalls == old(ghost.hookCalls)
 //@   ensures H6 [C12]: isRA(m) && result1 == nil ==> ghost.inconsistencies == old(ghost.inconsistencies) + ghost.nproblems && ghost.hookCalls == old(ghost.hookCalls) + b2i(ghost.nproblems > 0 && a.OnInconsistentRA != nil)
 //@   opt safety [C07,C09,C12]
-//@   opt frame [C07]
+//@   opt frame [C07,C04]
 
 // ---------------------------------------------------------------------------
 // monitor.go (C18)
